@@ -219,10 +219,10 @@ GV_CANARY("LocalNetwork_weight_obs entry");
 /* ---- residual cofactors: vahkopr(i) = (1 - h_i)/p_i, clamped at 0 only when negative ---------------------------- */
 //@ contract LocalNetwork_vyrovnani_wcoef_block
 __CPROVER_requires(NET_SHAPE(self) && self->tst_vyrovnani_ && gv_exc == 0 && gv_qbb_calls == 0 && gv_stddev_calls == 0)
-__CPROVER_assigns(self->vahkopr.rep, self->vahkopr.sz, __CPROVER_object_whole(self->vahkopr.rep), gv_stddev_calls, gv_qbb_calls)
+__CPROVER_assigns(self->vahkopr.rep, self->vahkopr.sz, __CPROVER_object_whole(self->vahkopr.rep), gv_stddev_calls, gv_qbb_calls, gv_exc)
 __CPROVER_frees(self->vahkopr.rep)
 /* dimension: one element per observation */
-__CPROVER_ensures(self->vahkopr.sz == self->pocmer_ && (self->pocmer_ > 0 ==> VEC_WF(self->vahkopr)))
+__CPROVER_ensures(gv_exc == 0 && self->vahkopr.sz == self->pocmer_ && (self->pocmer_ > 0 ==> VEC_WF(self->vahkopr)))
 /* element k0 belongs to observation k0:  q_v = (1 - q_bb(k0,k0)) / p_k0;  a clamp may act ONLY on negative values */
 __CPROVER_ensures((1 <= gv_k0 && gv_k0 <= self->pocmer_) ==> SAME_D(self->vahkopr.rep[gv_k0 - 1], CLAMP_NEG(QV_TERM(self, gv_k0))))
 /* every observation is visited exactly once: one cofactor and one weight per observation */
@@ -245,9 +245,9 @@ __CPROVER_decreases((long)self->pocmer_ + 1 - i)
 //@ contract LocalNetwork_vyrovnani_sigmaL_block
 __CPROVER_requires(NET_SHAPE(self) && self->tst_vyrovnani_ && gv_exc == 0 && gv_m0_calls == 0 && gv_qbb_calls == 0 && gv_stddev_calls == 0)
 __CPROVER_requires((0 <= gv_j0 && gv_j0 < self->gv_nall) ==> FLAT_WF(self, gv_j0))
-__CPROVER_assigns(self->sigma_L.rep, self->sigma_L.sz, __CPROVER_object_whole(self->sigma_L.rep), gv_stddev_calls, gv_qbb_calls, gv_m0_calls)
+__CPROVER_assigns(self->sigma_L.rep, self->sigma_L.sz, __CPROVER_object_whole(self->sigma_L.rep), gv_stddev_calls, gv_qbb_calls, gv_m0_calls, gv_exc)
 __CPROVER_frees(self->sigma_L.rep)
-__CPROVER_ensures(self->sigma_L.sz == self->pocmer_ && (self->pocmer_ > 0 ==> VEC_WF(self->sigma_L)))
+__CPROVER_ensures(gv_exc == 0 && self->sigma_L.sz == self->pocmer_ && (self->pocmer_ > 0 ==> VEC_WF(self->sigma_L)))
 /* the ghost observation flat[j0], if active, is observation number n0 = apre[j0]+1 (= revised_obs_[n0-1]); element n0 of sigma_L is
    (m0/m0_apr) * sqrt(q_bb(n0,n0)) * stdDev(that observation), in one of the three association orders of the product */
 __CPROVER_ensures((0 <= gv_j0 && gv_j0 < self->gv_nall && ACT(self->gv_flat[gv_j0])) ==> SIG_IS_EXPECTED(self, gv_j0, self->sigma_L.rep[self->gv_apre[gv_j0]]))
